@@ -37,6 +37,11 @@ alongside; it demands only what the statement says:
   * an idle time < 1800 s may or may not time a writer out (statement silent): the model follows
     what the implementation did and counts it.
 
+Overflow probes (outside the BFS, shares of 4 and 100 bytes): every (prefix written, offset, length) of a grid
+with offset+length > allocated size - ending 1 byte .. more than a lease record past it, starting inside, at and
+beyond the end -: the write is refused or accepted, then the share is completed and closed; a read must return
+exactly the allocated size and the bytes written in range.
+
 Canonical state for de-duplication (taken from the IMPLEMENTATION, not the model): the complete
 file/directory tree under shares/ with the 4-byte lease expiry fields zeroed; for every entry of
 StorageServer._bucket_writers its path, closed flag, max size, _already_written ranges and the
@@ -393,6 +398,93 @@ class World(object):
         return "{" + ", ".join("%s:%s[%s]c%d" % (self.nm(k), v["st"], self.showw(v["w"]), v["can"]) for k, v in sorted(self.m.items())) + "}"
 
 
+# ------------------------------------------------------------------ overflow probes (bigger shares)
+def overflow_cases():
+    """(size, in-range prefix length, offset, length) with offset+length > size: writes that end past the allocated
+    size by 1 byte .. more than a lease record, starting inside, at and beyond the end"""
+    out = []
+    for size in (4, 100):
+        for pre in sorted(set([0, size // 2, size - 1])):
+            for off in sorted(set([0, 1, pre, size // 2, size - 10, size - 1, size, size + 1, size + 80])):
+                if off < 0:
+                    continue
+                for ln in sorted(set([1, 2, 8, 12, 13, 30, size - 1, size, size + 1, size + 80, 200])):
+                    if ln >= 1 and off + ln > size:
+                        out.append([size, pre, off, ln])
+    return out
+
+
+def overflow_probe(case):
+    """allocate `size` bytes, write the first `pre` bytes, then ONE write that would end past the allocated size,
+    then (whatever the answer) complete the share with in-range writes and close it.  Returns observations:
+    accepted (bool), length of read(0, 10*size+500), bytes at the written positions, lease view."""
+    size, pre, off, ln = case
+    box = L.Box()
+    try:
+        si = SIS["same-prefix"][0]
+        renew, cancel = SECRETS[0]
+        data = bytes((7 * i + 3) % 251 for i in range(size))
+        junk = bytes((5 * i + 11) % 251 for i in range(ln))
+        already, writers = box.fss.remote_allocate_buckets(si, renew, cancel, [0], size, L.Canary("c0"))
+        w = writers[0]
+        if pre:
+            w.remote_write(0, data[:pre])
+        inside = max(0, min(size, off + ln) - off) if off < size else 0
+        # the in-range part of the overflowing write carries the share's own bytes, the rest is junk
+        blob = (data[off:off + inside] + junk[inside:]) if inside else junk
+        try:
+            w.remote_write(off, blob)
+            accepted = True
+        except Exception as e:  # noqa
+            accepted = L.exc_name(e)
+        # complete and close
+        err = None
+        try:
+            w.remote_write(pre, data[pre:])
+            w.remote_close()
+        except Exception as e:  # noqa
+            err = L.exc_name(e)
+        obs = {"accepted": accepted, "complete_error": err}
+        readers = box.fss.remote_get_buckets(si)
+        if 0 in readers:
+            got = readers[0].remote_read(0, 10 * size + 500)
+            obs["read_len"] = len(got)
+            obs["read_ok"] = got[:size] == data
+        else:
+            obs["read_len"] = None
+        from allmydata.storage.immutable import ShareFile
+        try:
+            sf = ShareFile(box.final_path(si, 0))
+            leases = list(sf.get_leases())
+            obs["leases"] = len(leases)
+            obs["lease_ok"] = len(leases) == 1 and leases[0].is_renew_secret(renew) and leases[0].owner_num == 1
+        except Exception as e:  # noqa
+            obs["leases"] = "unreadable:" + L.exc_name(e)
+            obs["lease_ok"] = False
+        return obs
+    finally:
+        box.close()
+
+
+def _overflow_chunk(chunk):
+    res = common.Result()
+    for case in chunk:
+        obs = overflow_probe(case)
+        res.count("overflow_probes")
+        res.count("overflow:" + ("accepted" if obs["accepted"] is True else "rejected:" + str(obs["accepted"])))
+        size = case[0]
+        where = "share of %d bytes, first %d written, then write(offset=%d, %d bytes) [accepted: %r]" % (case[0], case[1], case[2], case[3], obs["accepted"])
+        if obs["read_len"] is None:
+            if obs["complete_error"] is None:
+                res.violation("overflow:share-missing-after-close", {"overflow": case}, "%s: the share was completed and closed but is not listed" % where)
+        else:
+            if obs["read_len"] != size:
+                res.violation("overflow:read-not-clipped-at-allocated-size", {"overflow": case}, "%s: after completion read(0, big) returns %d bytes, allocated size %d" % (where, obs["read_len"], size))
+            elif not obs["read_ok"]:
+                res.violation("overflow:stored-bytes-differ-from-written", {"overflow": case}, "%s: the completed share does not read back the bytes written in range" % where)
+    return res
+
+
 def run_history(hist):
     """hist[0] = ["cfg", {...}], then operations.  Returns (canon, viols, ops, world-stats)."""
     cfg = hist[0][1]
@@ -424,6 +516,9 @@ def bfs_replay(hist):
 
 
 def replay(case):
+    if "overflow" in case:
+        r = _overflow_chunk([case["overflow"]])
+        return [(v["sig"], v["msg"]) for v in r.violations]
     return run_history(case["history"])[1]
 
 
@@ -456,6 +551,7 @@ def run(tier, seed):
             st = res.counts.get("states", 0) + r.counts.get("states", 0)
             res.merge(r)
             res.counts["states"] = st
+        res.merge(common.pmap(_overflow_chunk, overflow_cases()))
         reads = 0
         kinds = {}
         if os.path.exists(path):
